@@ -43,7 +43,7 @@ use std::task::{Context, Poll};
 
 pub const META: Meta = Meta {
     level: "model_checking",
-    rule: "BFS over all histories (depth 8 quick / 12 thorough) of {send_request (<=3), outstanding dial fails, connection c0/c1 established inbound/outbound (once each), connection closed, handler outcome for an outbound request (response/timeout/unsupported/stream failure), inbound request (<=2) reported, worker time-out overtaking the report, application responds / drops the channel, handler outcome for an inbound request (sent/omitted/time-out/stream failure)} against the real request_response::Behaviour; every state additionally re-executed from scratch with the drain suffix (fail dials, close connections). States deduplicated on the full model state (request tables with ids, stages and outcome counts, connection and dial state) + is_connected/is_pending_* getters. Non-trivial = states with at least one request issued or delivered.",
+    rule: "BFS over all histories (depth 8 quick / 12 thorough) of {send_request (<=3), outstanding dial ends with DialError Transport/Aborted/WrongPeerId/Denied/NoAddresses/LocalPeerId (DialPeerConditionFalse is delivered by the dial-condition model whenever the behaviour asks for a dial while connected or dialing; the requests concerned stay queued and must get their outcome from the dial/connection that blocked them), connection c0/c1 established inbound/outbound (once each), connection closed, handler outcome for an outbound request (response/timeout/unsupported/stream failure), inbound request (<=2) reported, worker time-out overtaking the report, application responds / drops the channel, handler outcome for an inbound request (sent/omitted/time-out/stream failure)} against the real request_response::Behaviour; every state additionally re-executed from scratch with the drain suffix (fail dials, close connections). States deduplicated on the full model state (request tables with ids, stages and outcome counts, connection and dial state) + is_connected/is_pending_* getters. Non-trivial = states with at least one request issued or delivered.",
     explanation: "Every transition executes the real Behaviour (send_request / send_response / on_swarm_event / on_connection_handler_event / handle_established_* / poll); safety oracle in every state, completeness oracle after the drain suffix of every state; un-deduplicated DFS companion to a smaller depth.",
     assumptions: &["handlers are modelled at event level from handler.rs (one outcome per request unless the connection closes)", "the Swarm's handling of ToSwarm::Dial is modelled (DisconnectedAndNotDialing)", "one remote peer, two connections, <= 3 outbound and <= 2 inbound requests", "connections that are denied by another behaviour after handle_established_* are not part of the alphabet", "inbound request ids are allocated by the harness (in production: a shared atomic counter)"],
 };
@@ -74,7 +74,9 @@ type HEv = THandlerOutEvent<Beh>;
 #[derive(Clone, Debug, Serialize, Deserialize, PartialEq)]
 pub enum Act {
     Send,
-    DialFail,
+    /// the outstanding dial ends with DialError kind k: 0 Transport, 1 Aborted (e.g.
+    /// disconnect_peer_id on a pending dial), 2 WrongPeerId, 3 Denied, 4 NoAddresses, 5 LocalPeerId
+    DialFail(u8),
     /// establish connection slot c; true = outbound (consumes an outstanding dial)
     Establish(usize, bool),
     Close(usize),
@@ -306,7 +308,7 @@ impl Sys {
         self.beh.on_swarm_event(FromSwarm::ConnectionClosed(ConnectionClosed { peer_id: Self::p(), connection_id: conn_id(c), endpoint: &ep, cause: None, remaining_established: remaining }));
     }
 
-    fn dial_fail(&mut self) {
+    fn dial_fail(&mut self, kind: u8) {
         self.dials -= 1;
         for r in self.outs.iter_mut() {
             if r.loc == OutLoc::Queued {
@@ -314,7 +316,20 @@ impl Sys {
             }
         }
         self.dial_seq += 1;
-        let err = DialError::Transport(Vec::new());
+        let a = addr("/ip4/10.0.0.1/tcp/4000");
+        // every way a Swarm ends a pending dial to a known peer (DialPeerConditionFalse is
+        // produced by the dial-condition model in `drain`)
+        let err = match kind {
+            0 => DialError::Transport(Vec::new()),
+            1 => DialError::Aborted,
+            2 => DialError::WrongPeerId { obtained: peer(2), address: a },
+            3 => DialError::Denied { cause: libp2p_swarm::ConnectionDenied::new(io::Error::other("denied")) },
+            4 => DialError::NoAddresses,
+            _ => DialError::LocalPeerId { address: a },
+        };
+        if !self.draining {
+            note(&format!("dial_failure_kind_{kind}"));
+        }
         self.beh.on_swarm_event(FromSwarm::DialFailure(DialFailure { peer_id: Some(Self::p()), error: &err, connection_id: ConnectionId::new_unchecked(100 + self.dial_seq) }));
     }
 
@@ -328,11 +343,11 @@ impl Sys {
                 }
                 self.outs.push(OutReq { id, loc: OutLoc::Queued, outcomes: 0 });
             }
-            Act::DialFail => {
-                if self.dials == 0 {
+            Act::DialFail(kind) => {
+                if self.dials == 0 || kind > 5 {
                     return Err("harness-disabled-action :: DialFail".into());
                 }
-                self.dial_fail();
+                self.dial_fail(kind);
             }
             Act::Establish(c, outbound) => {
                 if self.conn[c] != 0 || (outbound && self.dials == 0) {
@@ -462,7 +477,7 @@ impl Sys {
     fn drain_suffix(&mut self) -> Result<(), String> {
         self.draining = true;
         while self.dials > 0 {
-            self.dial_fail();
+            self.dial_fail(0);
             self.drain()?;
         }
         for c in 0..2 {
@@ -472,7 +487,7 @@ impl Sys {
             }
         }
         while self.dials > 0 {
-            self.dial_fail();
+            self.dial_fail(0);
             self.drain()?;
         }
         for r in &self.outs {
@@ -497,7 +512,9 @@ impl System for Sys {
             v.push(Act::Send);
         }
         if self.dials > 0 {
-            v.push(Act::DialFail);
+            for k in 0..6 {
+                v.push(Act::DialFail(k));
+            }
         }
         for c in 0..2 {
             if self.conn[c] == 0 {
@@ -591,7 +608,7 @@ pub fn run(ctx: &Ctx) -> Outcome {
     for (k, n) in &c.outcomes {
         out.count(&format!("seen {k}"), *n);
     }
-    for k in ["Response", "OutboundFailure::DialFailure", "OutboundFailure::Timeout", "OutboundFailure::ConnectionClosed", "OutboundFailure::UnsupportedProtocols", "OutboundFailure::Io", "Message::Request", "ResponseSent", "InboundFailure::Timeout", "InboundFailure::ConnectionClosed", "InboundFailure::ResponseOmission", "InboundFailure::Io", "dial_refused_condition_false"] {
+    for k in ["Response", "OutboundFailure::DialFailure", "OutboundFailure::Timeout", "OutboundFailure::ConnectionClosed", "OutboundFailure::UnsupportedProtocols", "OutboundFailure::Io", "Message::Request", "ResponseSent", "InboundFailure::Timeout", "InboundFailure::ConnectionClosed", "InboundFailure::ResponseOmission", "InboundFailure::Io", "dial_refused_condition_false", "dial_failure_kind_0", "dial_failure_kind_1", "dial_failure_kind_2", "dial_failure_kind_3", "dial_failure_kind_4", "dial_failure_kind_5"] {
         if out.get(&format!("seen {k}")) == 0 {
             out.machinery(format!("vacuity: outcome kind {k} never observed"));
         }
